@@ -6,6 +6,7 @@
 //	prs_jlsn    jpegls/nearlossless.Decode     jlsn_decode   (PrsJls.v)
 //	prs_jll     lossless.Decode                jll_decode    (PrsJpeg.v)
 //	prs_sv1     lossless14sv1.Decode           sv1_decode    (PrsJpeg.v)
+//	prs_bl      baseline.Decode                bl_decode     (PrsBaseline.v)
 //	prs_j2k     jpeg2000.Decoder.Decode        k_main_header (PrsJ2k.v)
 //	prs_declared  SniffAny (sniff.go)          declared_S    (PrsOutcome.v)
 //
@@ -48,6 +49,9 @@ var corrTargets = []corrTarget{
 	{"prs_sv1", "lossless14sv1.Decode", famJPEG, []string{"sv1-", "lossless-"},
 		regexp.MustCompile(`^(invalid Huffman table|EOF|unexpected EOF|invalid JPEG data|huffman decode error)`),
 		regexp.MustCompile(`huffman\.go:HuffmanTable\.Build|jpeg/standard/reader\.go|jpeg/lossless14sv1/decoder\.go:(Decoder\.parse|Decode$)`)},
+	{"prs_bl", "baseline.Decode", famJPEG, []string{"baseline-", "extended-"},
+		regexp.MustCompile(`^(invalid Huffman table|EOF|unexpected EOF|invalid JPEG data|huffman decode error)`),
+		regexp.MustCompile(`huffman\.go:HuffmanTable\.Build|jpeg/standard/reader\.go|jpeg/standard/utils\.go:DivCeil|jpeg/baseline/decoder\.go:(Decoder\.parse|Decoder\.decodeScan|Decode$)`)},
 	{"prs_j2k", "jpeg2000.Decoder.Decode", famJ2K, []string{"j2k-", "htj2k-", "codec.9", "codec.20"},
 		nil, regexp.MustCompile(`jpeg2000/codestream/parser\.go`)},
 }
@@ -83,6 +87,10 @@ func (t *corrTarget) implClass(r *Res) string {
 			if len(f) >= 4 {
 				return "ok:" + strings.Join(f[:4], ",")
 			}
+		case "prs_bl":
+			if len(f) >= 4 {
+				return "ok:" + strings.Join(f[:3], ",") + ",8"
+			}
 		case "prs_j2k":
 			return "passed:" + r.Detail
 		}
@@ -106,6 +114,11 @@ func (t *corrTarget) implClass(r *Res) string {
 		if t.hdrSites.MatchString(site) {
 			return "panic"
 		}
+		if t.op == "prs_bl" && strings.Contains(site, "decodeBlock") {
+			// the model covers only the first table lookup of decodeBlock (dcTables[Td] of the
+			// first component); acTables[Ta] / qtables[Tq] are reached after entropy decoding
+			return "blockpanic"
+		}
 		if t.op == "prs_j2k" {
 			return "passed"
 		}
@@ -128,6 +141,15 @@ func (t *corrTarget) compare(model string, impl string) (m, i string) {
 			return "oom", "oom"
 		}
 		return model, "oom"
+	}
+	if impl == "blockpanic" {
+		if model == "panic" {
+			return "panic", "panic"
+		}
+		if strings.HasPrefix(model, "ok:") {
+			return "ok:reached-scan", "ok:reached-scan"
+		}
+		return model, impl
 	}
 	switch {
 	case t.op == "prs_j2k":
